@@ -217,8 +217,11 @@ PROPS = {
     ),
     'C05': dict(
         monitor=True,
-        streams=[chain_stream(8000, 300000, _nt_c05)],
-        rule=CHAIN_RULE + 'C05 non-trivial: the chain binds and at least three call events are logged',
+        streams=[chain_stream(8000, 300000, _nt_c05), chain_stream(2500, 80000, _nt_c05, name='editchain'), chain_stream(2000, 60000, _nt_c05, name='nooutmotif'),
+                 dict(name='edits', n_quick=2000, n_thorough=50000, nontrivial=_edits_nontrivial)],
+        rule=CHAIN_RULE + 'stream editchain: ordinary chains with named edits (InsertBeforeNamed / InsertAfterNamed / ReplaceNamed, also adjacent ones) whose execution order must be '
+             'that of the edited list; stream edits: the named-edit algorithm on generated lists (as for C18). stream nooutmotif: injectors without outputs carrying Cacheable-family '
+             'annotations listed among per-invocation providers, two or three invocations (they run at their listed position on every invocation). C05 non-trivial: the chain binds and at least three call events are logged',
         level_text='Theorem sem_order (Coq, no axioms): in the reference semantics, for every program and every choice of inner() call counts, the '
                    'call log is the listed order, each provider once per traversal, the remainder once per inner() call; exec_refines_sem and '
                    'static_refines transfer it to the machine (same final world for every behaviour; static part = fold over the listed order). '
@@ -229,7 +232,8 @@ PROPS = {
     'C06': dict(
         monitor=True,
         streams=[chain_stream(6000, 200000, _nt_c06, name='static'), chain_stream(3000, 100000, _nt_bound),
-                 chain_stream(2000, 50000, _nt_c06, name='ifaceout'), pair_stream('cacheperm', 5000, 150000)],
+                 chain_stream(2000, 50000, _nt_c06, name='ifaceout'), pair_stream('cacheperm', 5000, 150000),
+                 chain_stream(2000, 60000, _nt_bound, name='femotif'), chain_stream(2000, 60000, _nt_bound, name='nooutmotif')],
         rule=CHAIN_RULE + 'stream static: the same generator biased to literals, Cacheable/MustCache/Memoize/Singleton/NotCacheable providers with inputs from '
              'literals, init arguments, other static providers or invoke arguments, init functions and sessions of 2-7 steps; C06 non-trivial: the chain binds '
              'and includes a static injector; the monitor compares class/group of every provider, the number of calls of every provider over the session and '
@@ -257,8 +261,11 @@ PROPS = {
     ),
     'C03': dict(
         monitor=True,
-        streams=[chain_stream(8000, 300000, _nt_c03), chain_stream(3000, 100000, _nt_c03, name='ifacesub'), chain_stream(1500, 50000, _nt_c03, name='bigchain')],
-        rule=CHAIN_RULE + 'C03 non-trivial: the chain binds and at least one supplied provider is excluded',
+        streams=[chain_stream(8000, 300000, _nt_c03), chain_stream(3000, 100000, _nt_c03, name='ifacesub'), chain_stream(1500, 50000, _nt_c03, name='bigchain'),
+                 chain_stream(3000, 100000, _nt_c03, name='reorder'), dict(name='history', n_quick=600, n_thorough=15000, nontrivial=_nt_pair, compare=_pair_compare, wf_check=False)],
+        rule=CHAIN_RULE + 'stream reorder: chains with Reorder sprinkled on injectors and wrappers (selection after a sort that really moves providers). stream history (as for '
+             'C11, without the race detector): annotating a derived provider must not change what the provider it was derived from asks for (MustConsume, Loose, ... are per provider). '
+             'C03 non-trivial: the chain binds and at least one supplied provider is excluded',
         level_text='Theorems select_sound (whatever the elimination heuristics did, a chain that binds has, under the final marks, an included '
                    'source for every input of every included provider and an included consumer for every must-consume flow; Required providers are '
                    'included), validate_sound (worklist soundness from the dependency-closure invariant), provides_returns_closed, chain_refines (only '
@@ -338,7 +345,7 @@ PROPS = {
         monitor=True,
         streams=[conc_stream('debuglock', 60, 1500),
                  chain_stream(4000, 100000, _nt_dbg, name='debugging'),
-                 pair_stream('dbgneutral', 4000, 100000)],
+                 pair_stream('dbgneutral', 4000, 100000), dict(name='history', n_quick=500, n_thorough=15000, nontrivial=_nt_pair, compare=_pair_compare, wf_check=False, race=True)],
         rule='stream debugging: Reorder-rich chains in which every provider has a unique name and one to three providers (possibly the final function) take '
              '*Debugging; besides the usual observation the harness records, from the first non-nil Debugging value a provider receives, NamesIncluded and the '
              'INCLUDED/EXCLUDED counts of IncludeExclude; monitor: NamesIncluded is exactly the names of the included entries of the final working list in '
@@ -359,7 +366,8 @@ PROPS = {
     ),
     'C13': dict(
         monitor=True,
-        streams=[chain_stream(5000, 150000, _nt_bound, name='regroup'), pair_stream('unused', 5000, 150000), chain_stream(2000, 50000, _nt_bound)],
+        streams=[chain_stream(5000, 150000, _nt_bound, name='regroup'), pair_stream('unused', 5000, 150000), chain_stream(2000, 50000, _nt_bound),
+                 chain_stream(2000, 50000, _nt_bound, name='unusedmotif')],
         rule=CHAIN_RULE + 'stream regroup: ordinary chains whose provider list the harness builds through a seeded recipe of nested Sequences (named, unnamed, '
              'empty neighbours, three levels), base.Append (with a second, unrelated Append on the same base afterwards), Provide names and annotations '
              '(Desired/Cacheable/Required/Shun/NonFinal) lifted from every member of a run to the enclosing collection; the observation must equal the model '
@@ -377,7 +385,7 @@ PROPS = {
     ),
     'C14': dict(
         monitor=True,
-        streams=[pair_stream('desired', 5000, 150000), chain_stream(3000, 100000, _nt_bound)],
+        streams=[pair_stream('desired', 5000, 150000), chain_stream(3000, 100000, _nt_bound), dict(name='history', n_quick=600, n_thorough=15000, nontrivial=_nt_pair, compare=_pair_compare, wf_check=False)],
         rule=CHAIN_RULE + 'stream desired: a chain and a chosen Desired or auto-desired provider (outside clusters, not Shun\'d), paired with the same chain '
              'with that provider Required; monitor: included iff the variant binds, and then identical order, results and call log; non-trivial: base binds',
         level_text='Theorems desired_kept_in_trials (in every trial elimination a Desired/auto-desired provider is kept exactly like a Required one, so it can '
@@ -402,7 +410,7 @@ PROPS = {
     ),
     'C16': dict(
         monitor=True,
-        streams=[pair_stream('prune', 5000, 150000)],
+        streams=[pair_stream('prune', 5000, 150000), pair_stream('unusedprune', 2000, 60000)],
         rule='stream prune: chains without Reorder/Cluster/static-eligible annotations (otherwise as the chain stream), paired with the same chain with every '
              'provider the real Bind excluded deleted; monitor: the pruned chain binds, includes the same providers and yields the same results and call log; '
              'non-trivial: base binds; chains with a Shun\'d provider (or nject\'s own Shun\'d Unused providers) are the region of known finding D6 and are '
